@@ -1,4 +1,5 @@
 import Rio.Model.Git
+import Rio.Proofs.PathTheory
 /-!
 # C19 — git unpack yields exactly the commit's tree
 
@@ -12,53 +13,106 @@ namespace Rio
 /-- **Exactly one entry per path of the tree, with the documented mapping**: regular → file 0644, executable →
     file 0755, symlink → link with the blob as target, directory → dir 0755; owner 1000:1000; mtime the default
     time; and the name is the tree path. -/
-theorem C19_tree (e : GitEntry) (m : Meta) (h : gitEntryMeta e = some (some m)) :
+theorem C19_tree (e : GitEntry) (m : Meta) (h : gitEntryMeta e = .ok m) :
     mustRel e.name = some m.name ∧ m.uid = 1000 ∧ m.gid = 1000 ∧ m.mtime = defaultTime ∧
     (e.mode = .regular → m.kind = .file ∧ m.perms = 0o644) ∧
+    (e.mode = .deprecated → m.kind = .file ∧ m.perms = 0o644) ∧
     (e.mode = .executable → m.kind = .file ∧ m.perms = 0o755) ∧
     (e.mode = .symlink → m.kind = .symlink ∧ m.linkname = e.blob) ∧
     (e.mode = .dir → m.kind = .dir ∧ m.perms = 0o755) := by
   unfold gitEntryMeta at h
-  cases hn : mustRel e.name with
-  | none => simp [hn] at h
-  | some n =>
-    simp only [hn] at h
-    cases hm : e.mode <;> simp only [hm] at h <;> first
-      | (simp at h; done)
-      | (simp only [Option.some.injEq] at h; subst h; simp)
-
-theorem mapM_some_length {α β : Type} (f : α → Option β) : ∀ (xs : List α) (ys : List β),
-    xs.mapM f = some ys → ys.length = xs.length := by
-  intro xs
-  induction xs with
-  | nil => intro ys h; simp at h; subst h; rfl
-  | cons x xs ih =>
-    intro ys h
-    rw [List.mapM_cons] at h
-    cases h1 : f x with
-    | none => simp [h1] at h
-    | some y =>
-      cases h2 : xs.mapM f with
-      | none => simp [h1, h2] at h
-      | some ys' =>
-        simp [h1, h2] at h
-        subst h
-        simp [ih ys' h2]
-
-/-- the unpack places the conjured root plus one metadata per walked entry, in order: nothing else (no `.git`) -/
-theorem C19_count (es : List GitEntry) (ms : List Meta) (h : gitUnpackMetas es = some ms) :
-    ms.length = es.length + 1 := by
-  unfold gitUnpackMetas at h
   split at h
   · cases h
-  · rename_i l hl
+  · cases hn : mustRel e.name with
+    | none => simp [hn] at h
+    | some n =>
+      simp only [hn] at h
+      cases hm : e.mode <;> simp only [hm] at h <;> first
+        | (cases h; done)
+        | (injection h with h; subst h; simp)
+
+/-- **No tree makes the unpack panic.**  Whatever names and modes a (hand-written) tree object carries, every
+    entry is either placed or refused as `rio-ware-corrupt`: the `fs.MustRelPath` panic is unreachable behind the
+    leading-slash guard, and an unknown file mode is a refusal. -/
+theorem C19_entry_never_panics (e : GitEntry) : gitEntryMeta e ≠ .panic := by
+  unfold gitEntryMeta
+  split
+  · simp
+  · rename_i hs
+    rw [mustRel_eq e.name hs]
+    cases e.mode <;> simp
+
+theorem C19_never_panics (es : List GitEntry) : gitUnpackMetas es ≠ .panic := by
+  have h : gitMetas es ≠ .panic := by
+    induction es with
+    | nil => simp [gitMetas]
+    | cons e es ih =>
+      simp only [gitMetas]
+      cases he : gitEntryMeta e with
+      | panic => exact absurd he (C19_entry_never_panics e)
+      | corrupt => simp
+      | ok m =>
+        cases hr : gitMetas es with
+        | panic => exact absurd hr ih
+        | corrupt => simp
+        | ok ms => simp
+  unfold gitUnpackMetas
+  cases hr : gitMetas es with
+  | panic => exact absurd hr h
+  | corrupt => simp
+  | ok ms => simp
+
+/-- exactly which entries are refused: a name starting with `/`, or a file mode go-git does not know -/
+theorem C19_refused_iff (e : GitEntry) :
+    gitEntryMeta e = .corrupt ↔ (e.name.head? = some slash ∨ e.mode = .other) := by
+  unfold gitEntryMeta
+  split
+  · rename_i hs; simp [hs]
+  · rename_i hs
+    rw [mustRel_eq e.name hs]
+    cases hm : e.mode <;> simp [hs]
+
+theorem gitMetas_length : ∀ (es : List GitEntry) (ms : List Meta), gitMetas es = .ok ms → ms.length = es.length := by
+  intro es
+  induction es with
+  | nil => intro ms h; simp [gitMetas] at h; subst h; rfl
+  | cons e es ih =>
+    intro ms h
+    simp only [gitMetas] at h
+    cases he : gitEntryMeta e with
+    | panic => simp [he] at h
+    | corrupt => simp [he] at h
+    | ok m =>
+      simp only [he] at h
+      cases hr : gitMetas es with
+      | panic => simp [hr] at h
+      | corrupt => simp [hr] at h
+      | ok ms' =>
+        simp only [hr] at h
+        injection h with h
+        subst h
+        simp [ih ms' hr]
+
+/-- the unpack places the conjured root plus one metadata per walked entry, in order: nothing else (no `.git`) -/
+theorem C19_count (es : List GitEntry) (ms : List Meta) (h : gitUnpackMetas es = .ok ms) :
+    ms.length = es.length + 1 := by
+  unfold gitUnpackMetas at h
+  cases hr : gitMetas es with
+  | panic => simp [hr] at h
+  | corrupt => simp [hr] at h
+  | ok l =>
+    simp only [hr] at h
     injection h with h
     subst h
-    simp [mapM_some_length _ es l hl]
+    simp [gitMetas_length es l hr]
 
 /-- **Frame**: the result is a function of the walked entries alone. Two repositories (any refs, HEAD, index,
     work tree) in which the commit's tree walks to the same entries unpack identically. -/
 theorem C19_frame (es₁ es₂ : List GitEntry) (h : es₁ = es₂) : gitUnpackMetas es₁ = gitUnpackMetas es₂ := by
   rw [h]
+
+/-- non-vacuity: a tree with a deprecated-mode file and a symlink is placed; one with an absolute name is refused -/
+example : gitUnpackMetas [⟨[97], .deprecated, []⟩, ⟨[98], .symlink, [97]⟩] ≠ .corrupt := by decide
+example : gitUnpackMetas [⟨[47, 97], .regular, []⟩] = .corrupt := by decide
 
 end Rio
